@@ -1,7 +1,7 @@
 (* C09 — proofs, part H: op lists of a client that lets the scheduler deliver a check's
    notification before it calls hash_check again; the final theorems. *)
 From Coq Require Import List NArith Bool Arith Lia.
-From LTV.C09 Require Import ParamsGen Model ProofsA ProofsB ProofsC ProofsD ProofsE ProofsF ProofsG.
+From LTV.C09 Require Import ParamsGen Model ProofsA ProofsB ProofsC ProofsD ProofsE ProofsF ProofsG ProofsL.
 Import ListNotations.
 
 Section Top.
@@ -12,12 +12,25 @@ Variable expected : nat -> list N.
 Notation step := (step H pl expected).
 Notation run := (run H pl expected).
 
-(* hash_check is not called while the completion/error notification of a previous check is
-   still waiting in the scheduler *)
+(* The client
+     - does not call hash_check while the completion/error notification of a previous check is still
+       waiting in the scheduler, and
+     - the memory manager is not under pressure (OLimit None) whenever pieces get queued (hash_check,
+       delivery of a hash result, run-all), and no retry timer is pending when the clock is advanced.
+   Histories WITH memory pressure are covered by the unconditional theorems (check_exact_sound,
+   check_readonly, stop_erases_all_timers) and by the correspondence run. *)
+Definition step_ok (s : st) (o : op) : Prop :=
+  match o with
+  | OCheck _ => s_delay s = false /\ s_lim s = None
+  | ODeliver _ | ORunAll => s_lim s = None
+  | OAdvance => s_retry (do_tick s) = false
+  | _ => True
+  end.
+
 Fixpoint polite (s : st) (ops : list op) : Prop :=
   match ops with
   | [] => True
-  | o :: r => (match o with OCheck _ => s_delay s = false | _ => True end) /\ polite (step s o) r
+  | o :: r => step_ok s o /\ polite (step s o) r
   end.
 
 Section Fixed.
@@ -35,33 +48,39 @@ Proof.
   rewrite Hh. destruct (do_tick_inv H pl expected fs0 s HI) as (A & B & _). auto.
 Qed.
 
-Lemma run_all_inv fuel : forall s, inv s -> inv (run_all H pl expected fuel s).
+Lemma run_all_inv fuel : forall s, inv s -> s_lim s = None -> inv (run_all H pl expected fuel s).
 Proof.
-  induction fuel as [|f IH]; intros s HI; simpl; [auto|].
+  induction fuel as [|f IH]; intros s HI Hl; simpl; [auto|].
   destruct (s_hq s) as [|[i b] r].
   - apply (do_tick_inv H pl expected fs0 s HI).
-  - apply IH. apply (do_deliver_inv H pl expected fs0 s i HI).
+  - apply IH; [apply (do_deliver_inv H pl expected fs0 s i HI Hl) | rewrite do_deliver_lim; assumption].
 Qed.
 
 Lemma run_all_terminates fuel : forall s,
-  inv s -> live s -> meas s < fuel -> is_checking (run_all H pl expected fuel s) = false.
+  inv s -> s_lim s = None -> live s -> meas s < fuel -> is_checking (run_all H pl expected fuel s) = false.
 Proof.
-  induction fuel as [|f IH]; intros s HI Hl Hm; [lia|]. simpl.
+  induction fuel as [|f IH]; intros s HI Hlim Hl Hm; [lia|]. simpl.
   destruct (s_hq s) as [|[i b] r] eqn:Hh.
   - destruct (do_tick_inv H pl expected fs0 s HI) as (_ & _ & C & _). apply C; auto.
-  - destruct (do_deliver_inv H pl expected fs0 s i HI) as (A & _ & C).
+  - destruct (do_deliver_inv H pl expected fs0 s i HI Hlim) as (A & _ & C).
     destruct C as [C|[C1 C2]]; auto.
     + unfold hqi. rewrite Hh. left; reflexivity.
     + apply not_checking_run_all; assumption.
-    + apply IH; auto. lia.
+    + apply IH; auto; [rewrite do_deliver_lim; assumption | lia].
 Qed.
 
-Lemma step_inv s o :
-  inv s -> (match o with OCheck _ => s_delay s = false | _ => True end) -> inv (step s o).
+Lemma inv_set_lim s l : inv s -> inv (set_lim s l).
 Proof.
-  intros HI Hp. destruct o; unfold Model.step.
+  intros [HR HC]. split.
+  - eapply invR_frame; eauto.
+  - eapply invC_same; eauto.
+Qed.
+
+Lemma step_inv s o : inv s -> step_ok s o -> inv (step s o).
+Proof.
+  intros HI Hp. destruct o; unfold Model.step; simpl in Hp.
   - apply do_open_inv; assumption.
-  - apply do_check_inv; assumption.
+  - destruct Hp as [Hd Hl]. apply do_check_inv; assumption.
   - apply do_deliver_inv; assumption.
   - destruct (is_checking s) eqn:Hc.
     + apply do_stop_inv; assumption.
@@ -69,6 +88,9 @@ Proof.
   - destruct HI as [HR _]. apply (wrapper_close_inv H pl expected fs0 s HR).
   - apply do_tick_inv; assumption.
   - apply run_all_inv; assumption.
+  - apply inv_set_lim; assumption.
+  - unfold do_advance, do_retry_fire. rewrite Hp. cbn [negb].
+    apply do_tick_inv. apply do_tick_inv. assumption.
 Qed.
 
 Lemma init_inv : inv (init fs0).
@@ -147,13 +169,13 @@ Qed.
 Theorem check_terminates ops :
   polite (init fs0) ops ->
   let s := run ops (init fs0) in
-  is_checking s = false -> s_delay s = false ->
+  is_checking s = false -> s_delay s = false -> s_lim s = None ->
   let s1 := do_check pl false s in
   is_checking (run_all H pl expected (run_all_fuel s1) s1) = false.
 Proof.
-  intros Hp s Hc Hd s1. pose proof (run_inv ops _ init_inv Hp) as HI. fold s in HI.
-  destruct (do_check_inv H pl expected fs0 false s HI Hd) as [HI1 Hl]. fold s1 in HI1, Hl.
-  apply run_all_terminates; [assumption | apply Hl; auto | unfold run_all_fuel, meas; lia].
+  intros Hp s Hc Hd Hlim s1. pose proof (run_inv ops _ init_inv Hp) as HI. fold s in HI.
+  destruct (do_check_inv H pl expected fs0 false s HI Hd Hlim) as [HI1 Hl]. fold s1 in HI1, Hl.
+  apply run_all_terminates; [assumption | unfold s1; rewrite do_check_lim; assumption | apply Hl; auto | unfold run_all_fuel, meas; lia].
 Qed.
 
 Lemma cleared_one_storerr s i : s_storerr (cleared_one s i) = s_storerr s.
@@ -189,7 +211,7 @@ Theorem storage_error_sound ops :
   polite (init fs0) ops ->
   let s := run ops (init fs0) in
   (forall bl i, s_bits s = Some bl -> nth i bl false = true -> valid H pl expected fs0 i = true) /\
-  (s_delay s = true -> is_checking s = false ->
+  (s_delay s = true -> is_checking s = false -> s_lim s = None ->
      let s1 := do_tick s in
      s_storerr s1 = true /\ s_open s1 = false /\ s_bits s1 = None /\ s_nodes s1 = [] /\ s_hq s1 = [] /\
      s_ierr s1 = false /\
@@ -198,7 +220,7 @@ Theorem storage_error_sound ops :
 Proof.
   intros Hp s. split.
   { intros bl i Hb Hi. eapply check_sound; eauto. }
-  intros Hd Hc s1.
+  intros Hd Hc Hlim s1.
   pose proof (run_inv ops _ init_inv Hp) as HI. fold s in HI.
   destruct HI as [HR HC].
   assert (Hs1 : s1 = wrapper_close (set_storerr (set_delay s false) true)).
@@ -214,12 +236,58 @@ Proof.
   intros s2.
   pose proof (do_open_inv H pl expected fs0 s1 A) as HIo.
   destruct (do_open_fields s1) as [Fd Fo].
-  destruct (do_check_inv H pl expected fs0 false (do_open pl s1) HIo) as [HI2 Hl]; [rewrite Fd; assumption|].
+  assert (Hlim2 : s_lim (do_open pl s1) = None) by (rewrite do_open_lim, Hs1, wrapper_close_lim; simpl; assumption).
+  destruct (do_check_inv H pl expected fs0 false (do_open pl s1) HIo) as [HI2 Hl]; [rewrite Fd; assumption | assumption|].
   fold s2 in HI2, Hl. split.
   - destruct HI2 as [AR _]. apply (r_ierr _ _ _ _ _ _ AR).
-  - apply (run_all_terminates (run_all_fuel s2) s2); [assumption| |unfold run_all_fuel, meas; lia].
+  - apply (run_all_terminates (run_all_fuel s2) s2); [assumption | unfold s2; rewrite do_check_lim; assumption | |unfold run_all_fuel, meas; lia].
     apply Hl; [reflexivity|]. unfold is_checking. rewrite Fo, A3. reflexivity.
 Qed.
 
 End Fixed.
+
+(* stop_erases_all_timers: in ANY state (no assumption on the history, memory pressure included), after
+   hash_stop during a check and after close, neither the completion/error notification (m_delay_checked)
+   nor the ENOMEM retry (m_delay_retry) is scheduled any more — so advancing the clock afterwards cannot
+   run HashTorrent::queue on a checker that is not running. *)
+Lemma cleared_one_timers s i :
+  s_delay (cleared_one s i) = s_delay s /\ s_retry (cleared_one s i) = s_retry s.
+Proof.
+  unfold cleared_one, chunk_release.
+  repeat match goal with
+         | |- context [if ?c then _ else _] => destruct c
+         | |- context [match ?x with _ => _ end] => destruct x
+         end; simpl; auto.
+Qed.
+
+Lemma fold_cleared_timers (l : list (nat * list N)) : forall s,
+  s_delay (fold_left (fun a e => cleared_one a (fst e)) l s) = s_delay s /\
+  s_retry (fold_left (fun a e => cleared_one a (fst e)) l s) = s_retry s.
+Proof.
+  induction l as [|e l IH]; intros s; simpl; auto.
+  destruct (IH (cleared_one s (fst e))) as [A B]. destruct (cleared_one_timers s (fst e)) as [C D].
+  split; congruence.
+Qed.
+
+Theorem stop_erases_all_timers s :
+  (is_checking s = true -> s_delay (do_stop s) = false /\ s_retry (do_stop s) = false /\
+                           do_advance pl (do_stop s) = do_stop s) /\
+  (s_delay (do_close s) = false /\ s_retry (do_close s) = false /\ do_advance pl (do_close s) = do_close s).
+Proof.
+  assert (Hadv : forall t, s_delay t = false -> s_retry t = false -> do_advance pl t = t).
+  { intros t Hd Hr. unfold do_advance, do_retry_fire, do_tick. rewrite Hd. cbn [negb]. rewrite Hr. cbn [negb]. rewrite Hd. reflexivity. }
+  split.
+  - intros Hc. assert (Hd : s_delay (do_stop s) = false /\ s_retry (do_stop s) = false).
+    { unfold do_stop. rewrite Hc. cbn [negb]. unfold ht_clear. simpl. auto. }
+    destruct Hd as [Hd Hr]. repeat split; auto.
+  - assert (Hd : s_delay (do_close s) = false /\ s_retry (do_close s) = false).
+    { unfold do_close, wrapper_close, hq_remove_all.
+      destruct (fold_cleared_timers (s_hq (ht_clear s)) (set_hq (ht_clear s) [])) as [A B].
+      destruct (s_open (fold_left (fun a e => cleared_one a (fst e)) (s_hq (ht_clear s)) (set_hq (ht_clear s) []))).
+      - match goal with |- context [if ?c then _ else _] => destruct c end;
+          cbn [s_delay s_retry set_nodes set_ierr set_bits set_files set_open]; rewrite A, B; simpl; auto.
+      - rewrite A, B. simpl. auto. }
+    destruct Hd as [Hd Hr]. repeat split; auto.
+Qed.
+
 End Top.
